@@ -712,7 +712,12 @@ func builtinKeys(i *Interpreter, args []Expr, env *Environment) (interface{}, er
 		return nil, fmt.Errorf("keys() expects an object argument, got %T", objArg)
 	}
 	keys := make([]interface{}, 0, len(obj))
+	names := make([]string, 0, len(obj))
 	for k := range obj {
+		names = append(names, k)
+	}
+	sort.Strings(names)
+	for _, k := range names {
 		keys = append(keys, k)
 	}
 	return keys, nil
